@@ -572,6 +572,9 @@ func (ps *pathState) assert(c *Term, label string, stack []string) {
 		return
 	}
 	m = completeModel(m, ps.inputs)
+	for _, o := range ps.observed {
+		stack = append(stack, "observed: "+o)
+	}
 	v := Violation{Label: label, Model: m, Decisions: decString(ps.decisions), Inputs: ps.inputDecls(), Stack: stack}
 	ps.ex.mu.Lock()
 	ps.ex.Violations = append(ps.ex.Violations, v)
